@@ -14,6 +14,7 @@ import (
 	"sort"
 	"strconv"
 	"strings"
+	"sync"
 	"time"
 )
 
@@ -378,21 +379,42 @@ func runProperty(id, tier, repo, verif string, verbose bool) int {
 		for _, n := range rulesFor(ps, tier) {
 			ruleSet[n] = true
 		}
+		var todo []Fixture
 		for _, fx := range fixtures {
-			if !ruleSet[fx.Rule] {
-				continue
+			if ruleSet[fx.Rule] {
+				todo = append(todo, fx)
 			}
+		}
+		type fxRes struct {
+			fired, skipped bool
+			note           string
+		}
+		results := make([]fxRes, len(todo))
+		sem := make(chan struct{}, 6)
+		var wg sync.WaitGroup
+		for i, fx := range todo {
+			wg.Add(1)
+			go func(i int, fx Fixture) {
+				defer wg.Done()
+				sem <- struct{}{}
+				defer func() { <-sem }()
+				f, sk, n := runFixture(id, tier, repo, fx)
+				results[i] = fxRes{f, sk, n}
+			}(i, fx)
+		}
+		wg.Wait()
+		for i, fx := range todo {
 			fixturesRun++
-			fired, skipped, note := runFixture(id, tier, repo, fx)
-			if skipped {
+			rr := results[i]
+			if rr.skipped {
 				fixturesSkipped++
-				fixtureNotes = append(fixtureNotes, "skipped "+fx.Name+": "+note)
+				fixtureNotes = append(fixtureNotes, "skipped "+fx.Name+": "+rr.note)
 				continue
 			}
-			if fired {
+			if rr.fired {
 				fixturesFired++
 			} else {
-				addExtra("CHECKER", "fixture:"+fx.Name, Undecided, "positive fixture no longer makes rule "+fx.Rule+" fire: "+note)
+				addExtra("CHECKER", "fixture:"+fx.Name, Undecided, "positive fixture no longer makes rule "+fx.Rule+" fire: "+rr.note)
 			}
 		}
 	}
